@@ -5,7 +5,7 @@ from imports import imported
 
 PROPERTY = "C01"
 LEVEL = "proof"
-EXPLANATION = ""
+EXPLANATION = ("Proof, per dispatch and read site, that every VM configuration funnels into code proved equal elsewhere: create_vm's flag dispatch constructs exactly the class the flags name; the light and full dataset reads fetch the item the specification names (light: computed from the cache, full: read at datasetOffset + masked ma); the soft/hard AES dispatch calls the selected primitive; the interpreter decodes every instruction word as specified and the x86 emitter agrees with it on the cases engines most easily disagree on (IMUL_RCP no-op rule, ISTORE). Whole-hash equality of two configurations is the composition of these facts with C04/C05/C08/C10/C12 and is not a single obligation.")
 TRUSTED = ["hand-written x86 assembly (jit_compiler_x86_static.S, asm/*.inc): dataset read, AES store, compiled dataset initialiser",
            "composition of the per-site equivalences into equality of two whole hashes (meta-step)",
            "imported verdicts: C04 (JIT == interpreter per instruction), C08 (dataset items), C10 (Argon2 fill), C12 (AES round)"]
